@@ -217,6 +217,9 @@ class VFSZip(VFS_Real):
             # become resolvable since (the index grows while links resolve).
             self.invalid_paths.clear()
             for item in symlinkinodes:
+                if not item["dest"]:
+                    # A link to nothing dangles.
+                    continue
                 if item["dest"][0] == "/":
                     dest = item["dest"][1:]
                 else:
